@@ -14,8 +14,10 @@
    writes, is a valid DateTime, and formatting it with p reproduces the same text.  Literals of any characters (multi-byte
    included), quoted text and '' are covered by the item lemma.
    The per-symbol agreement of formatter and parser (all 19 symbols, every width) is C12_date_symbols / C12_time_symbols.
-   NOT PROVED (checked by the differential run only): patterns that carry only part of a date or time (the defaults
-   0001-01-01, 00:00:00, UTC), and the Date / Time types' own parse loops (the per-symbol theorems apply to them as well). *)
+   The same for the Date type (patterns with a full date; time symbols are literal text there) and for the Time type
+   (full time of day and a zone): C12_date_partial, C12_time_partial.
+   NOT PROVED (checked by the differential run only), hence the suffix _partial: patterns that carry only part of a date
+   or of a time of day, or no zone (the defaults 0001-01-01, 00:00:00, UTC of the property's last sentence). *)
 From Astro Require Import Base Text CalSpec DateModel TimeModel ApiModel InstantSpec FormatModel ParseModel PatternSpec ValueFields
   TextProofs PatternProofs FieldProofs RoundTrip.
 
@@ -34,6 +36,29 @@ Theorem C12_datetime_partial : forall now v items sel, Inv_dt v /\ inst_in_range
     (Inv_dt v' /\ inst_in_range (local_instant v')) /\
     dt_format v' (unparse items) = Ok txt.
 Proof. exact dt_roundtrip_reformat. Qed.
+
+(* Date: every pattern with a full date reads back the same Date (whatever else it contains: era, quarter, week, weekday,
+   literals; the time symbols are literal text for Date) *)
+Theorem C12_date_partial : forall now d items, in_i32 d -> swf None items = true ->
+  fits_chain_k 0 d 0 (fields_of_day d 0 0) items [] ->
+  let ex := item_expected_k 0 d 0 0 in
+  has_g items ex PYear = true -> (has_g items ex PDayOfYear = true \/ (has_g items ex PMonth = true /\ has_g items ex PDayOfMonth = true)) ->
+  exists txt, date_format d (unparse items) = Ok txt /\ date_parse now txt (unparse items) = Ok d.
+Proof. exact date_roundtrip. Qed.
+(* Time: full time of day and a zone *)
+Theorem C12_time_partial : forall t items sel, Inv_tm t -> swf None items = true ->
+  let off := tm_off t in let ln := (tm_nanos t + off * NANOS_PER_SEC) mod NANOS_PER_DAY in
+  fits_chain_k 1 0 off (fields_of_day 0 ln off) items [] ->
+  let ex := item_expected_k 1 0 ln off in
+  (has_g items ex PHour = true \/ (has_g items ex PPeriodHour = true /\ has_g items ex PPeriod = true)) ->
+  has_g items ex PMinute = true -> has_g items ex PSecond = true ->
+  match sel with Some s => is_sub s = true | None => True end ->
+  (forall u, is_sub u = true -> has_g items ex u = match sel with Some s => punit_eqb s u | None => false end) ->
+  has_g items ex POffset = true ->
+  exists txt t', time_format t (unparse items) = Ok txt /\ time_parse txt (unparse items) = Ok t' /\
+    tm_off t' = off /\ (tm_nanos t' + off * NANOS_PER_SEC) mod NANOS_PER_DAY = ln / prec_unit sel * prec_unit sel /\ Inv_tm t' /\
+    time_format t' (unparse items) = Ok txt.
+Proof. exact time_roundtrip. Qed.
 
 (* formatter and parser agree on every symbol, whatever the pattern around it *)
 Theorem C12_date_symbols : forall now d c w rest, in_i32 d -> is_date_sym c = true -> date_field_ok d c w -> field_delim 0 c w rest ->
@@ -74,6 +99,8 @@ Proof.
 Qed.
 
 Print Assumptions C12_datetime_partial.
+Print Assumptions C12_date_partial.
+Print Assumptions C12_time_partial.
 Print Assumptions C12_date_symbols.
 Print Assumptions C12_time_symbols.
 Print Assumptions C12_item.
